@@ -82,7 +82,7 @@ class _Crash:
                 os.killpg(os.getpgid(0), signal.SIGKILL)
             return
         self.n += 1
-        emit("mut", n=self.n, op=op, path=ap, fn=_caller(3))
+        emit("mut", n=self.n, op=op, path=ap, fn=_caller(3), line_n=getattr(self, "lines", {}).get("n"))
         cp = _CFG.get("crash_path")        # alternative addressing: the k-th mutation whose file name contains this text
         if cp and cp in os.path.basename(ap):
             self.np = getattr(self, "np", 0) + 1
@@ -152,6 +152,47 @@ def _install_crash():
     gzip.open = gzip_open
     os.remove = remove
     os.unlink = remove
+
+    if _CFG.get("crash_lines"):
+        # source-free failpoints: 'line' events inside the repository's own code are counted (main process, main thread); the process
+        # dies when the count reaches crash_line_at.  The count at which .params is opened is logged (crash points before it are out of scope)
+        import atexit
+        repo = os.environ.get("VERIF_REPO", "/repo")
+        state = {"n": 0}
+        c.lines = state
+        target = _CFG.get("crash_line_at")
+        main_pid = os.getpid()
+
+        orchestration = ("dataset_processor.py", "file_utils.py", "isoquant.py", "read_groups.py", "gtf2db.py", "input_data_storage.py")
+        fn_stats = {}
+
+        def local(frame, event, arg):
+            if event == "line":
+                state["n"] += 1
+                if target is None:
+                    # counting run: first / last line event per function of the orchestration layer (used to stratify the failpoints)
+                    co = frame.f_code
+                    base = os.path.basename(co.co_filename)
+                    if base in orchestration:
+                        st = fn_stats.get((base, co.co_name))
+                        if st is None:
+                            fn_stats[(base, co.co_name)] = [state["n"], state["n"], 1]
+                        else:
+                            st[1] = state["n"]
+                            st[2] += 1
+                if state["n"] == target and os.getpid() == main_pid:
+                    emit("crash", n=None, line_n=state["n"], op="line", path="%s:%d" % (os.path.basename(frame.f_code.co_filename), frame.f_lineno),
+                         fn="%s:%s" % (os.path.basename(frame.f_code.co_filename), frame.f_code.co_name))
+                    c.die()
+            return local
+
+        def tracer(frame, event, arg):
+            if frame.f_code.co_filename.startswith(repo):
+                return local
+            return None
+        sys.settrace(tracer)
+        atexit.register(lambda: os.getpid() == main_pid and emit("line_total", n=state["n"],
+                                                                   functions=[[k[0], k[1]] + v for k, v in sorted(fn_stats.items())]))
 
 
 # ----------------------------------------------------------------------------- schedule (C06)
